@@ -264,10 +264,14 @@ func (g *vdrGroup) run(b vdrBeh, k int, seq bool) vdrOut {
 	frames, ids := r.frames, r.ids
 	out.Inconclusive, out.Extra = r.late, r.extra
 	r.mu.Unlock()
+	// the table is looked at when the call has returned, and again after the late replies
+	reg := map[uint16]bool{}
+	for _, id := range packet.VerifPingWaiterIDs() {
+		reg[id] = true
+	}
 	for i, f := range frames {
 		g.parse(r.message("late", f, ids[i]))
 	}
-	reg := map[uint16]bool{}
 	for _, id := range packet.VerifPingWaiterIDs() {
 		reg[id] = true
 	}
